@@ -5,7 +5,8 @@ import json, os, re, shutil, subprocess, sys, time
 name = sys.argv[1]
 tier = sys.argv[sys.argv.index("--tier") + 1] if "--tier" in sys.argv else "quick"
 prop = name.split("-")[0]
-sd = f"/verif/seeded/{name}"
+base = sys.argv[sys.argv.index("--dir") + 1] if "--dir" in sys.argv else "seeded"
+sd = f"/verif/{base}/{name}"
 cp = f"/var/tmp/seedrepo-{name}"
 shutil.rmtree(cp, ignore_errors=True)
 subprocess.run(["rsync", "-a", "--exclude", "/target", "--exclude", "/.git", "/repo/", cp + "/"], check=True)
@@ -21,6 +22,8 @@ shutil.rmtree(cp, ignore_errors=True)
 lines = [l for l in out.splitlines() if re.match(r"(VIOLATION|UNDECIDED|KNOWN-FINDING|\[C\d+\]|  obligation|    failed)", l)]
 meta = json.load(open(os.path.join(sd, "meta.json")))
 verdict = "caught" if p.returncode == 1 and "VIOLATION" in out else ("undecided (exit 2, no VIOLATION line)" if p.returncode == 2 else "MISSED (exit 0)")
+if base == "harmless":
+    verdict = {0: "held (exit 0)", 1: "FALSE ALARM (exit 1)", 2: "undecided (exit 2, no VIOLATION line)"}.get(p.returncode, f"exit {p.returncode}")
 meta["detection"][tier] = {"exit": p.returncode, "verdict": verdict, "wall_s": round(time.time() - t0), "report": lines[:12],
                            "with_counterexample": ("VIOLATION" in out and not all(l.rstrip().endswith("no-failing-input-found") for l in out.splitlines() if l.startswith("VIOLATION")))}
 json.dump(meta, open(os.path.join(sd, "meta.json"), "w"), indent=1)
